@@ -107,7 +107,7 @@ def writeT4Geometry(dic_surface_t4, dic_volume, skipped_cells, ofile):
 
     surf_used = extract_used_surfaces(dic_volume.values())
     with Progress('writing out surface',
-                  len(surf_used), max(surf_used)) as progress:
+                  len(surf_used), max(surf_used, default=0)) as progress:
         ofile.write("LANG ENGLISH\n\nGEOMETRY\n\n"
                     "TITLE title\n\nHASH_TABLE\n\n")
         for i, key in enumerate(sorted(surf_used)):
@@ -123,7 +123,7 @@ def writeT4Geometry(dic_surface_t4, dic_volume, skipped_cells, ofile):
         ofile.write("\n")
 
     with Progress('writing out volume',
-                  len(dic_volume), max(dic_volume)) as progress:
+                  len(dic_volume), max(dic_volume, default=0)) as progress:
         for i, (key, val) in enumerate(dic_volume.items()):
             progress.update(i, key)
             if key in skipped_cells:
